@@ -2,7 +2,7 @@
 from __future__ import annotations
 
 import ast
-from typing import List
+from typing import Dict, List
 
 import sympy as sp
 
@@ -271,8 +271,12 @@ def _r2(ck: Checker, prog: Program):
     def writes_peaks(st):
         return any(isinstance(x, ast.Subscript) and isinstance(x.ctx, ast.Store) and isinstance(x.value, ast.Attribute) and x.value.attr in peak_targets for x in ast.walk(st))
     loops = [st for st in m.node.body if isinstance(st, ast.For) and writes_peaks(st)]
+    if len(loops) == 0:
+        _per_window_arrays(ck, prog, m)
+        _r2_tail(ck, prog)
+        return
     if len(loops) != 1:
-        raise AnalysisError(f"{fq}: expected one per-window loop that records the peaks (found {len(loops)}; whole-array forms are not interpreted)")
+        raise AnalysisError(f"{fq}: expected one per-window loop that records the peaks (found {len(loops)})")
     lp = loops[0]
     from ..resolve import Resolver, canon
     RR = Resolver(prog, m, inline=False)
@@ -354,6 +358,298 @@ def _r2(ck: Checker, prog: Program):
     else:
         ck.violation("C08.R2", fq, "values per outcome", "absent peaks are not recorded as NaN with both masks False, or found peaks not as (f_peak, a_peak) with both masks True: "
                      + "; ".join(problems[:3]), loc=m.loc(lp))
+    _r2_tail(ck, prog)
+
+
+def _per_window_arrays(ck: Checker, prog: Program, m):
+    """The same rule for a method that records the peaks with whole-array statements instead of a loop over the windows: every
+    sequence that runs over the windows (a comprehension over self.amplitude, arrays made from it, zips of such) is followed
+    element by element - its value for one generic window - and so are the stores `self.A[:] = seq`, `self.A[mask] = value` /
+    `= [.. for .. if cond]` (cond must be the mask) and the final "accept all windows when no curve has a peak" step.  The four
+    per-window entries of a generic window are then compared with the specification for a found / an absent peak."""
+    from ..pathtable import same_rel, negate
+    fq = m.qualname
+    R = lambda n: sp.Symbol(n, real=True)   # noqa: E731
+    gi, NONE = sp.Function("getitem"), sp.Symbol("None")
+    ROW = R("<window row>")
+    hook = _norecv(pkg_call_hook(prog, m.module, prog.cls("HvsrCurve"), self_name="HvsrCurve"))
+    targets = ["_main_peak_frq", "_main_peak_amp", "valid_window_boolean_mask", "valid_peak_boolean_mask"]
+    elem: Dict[str, sp.Expr] = {"self.amplitude": ROW}
+    for t in targets:
+        elem["self." + t] = sp.Symbol(f"<old {t}>")
+    scalars: Dict[str, sp.Expr] = {}
+    ALLFLAT = sp.Symbol("<no curve has a peak>")
+    fnm = lambda x: getattr(getattr(x, "func", None), "__name__", "")      # noqa: E731
+
+    class _NotAligned(Exception):
+        pass
+
+    def seq_names(e):
+        return {unparse(n) for n in ast.walk(e) if isinstance(n, (ast.Name, ast.Attribute)) and unparse(n) in elem}
+
+    def tr(e, extra=None):
+        env = dict(scalars)
+        env.update(elem)
+        if extra:
+            env.update(extra)
+        T = Translator(env=env, call_hook=hook)
+        return T.tr(e)
+
+    def bind(target, value, out):
+        if isinstance(target, ast.Name):
+            out[target.id] = value
+        elif isinstance(target, (ast.Tuple, ast.List)):
+            for j, t_ in enumerate(target.elts):
+                bind(t_, value[j] if isinstance(value, sp.Tuple) and j < len(value) else gi(value, sp.Integer(j)), out)
+        else:
+            raise _NotAligned()
+
+    def element_of(e):
+        """("elem", value per window) | ("filtered", value, condition) | ("scalar", value)"""
+        if isinstance(e, ast.Call) and call_name(e) in ("array", "asarray", "list", "tuple") and len(e.args) == 1:
+            return element_of(e.args[0])
+        if isinstance(e, (ast.ListComp, ast.GeneratorExp)) and len(e.generators) == 1:
+            g = e.generators[0]
+            it = g.iter
+            if isinstance(it, ast.Call) and call_name(it) == "zip":
+                parts = [element_of(a) for a in it.args]
+                if not all(p_[0] == "elem" for p_ in parts):
+                    raise _NotAligned()
+                val = sp.Tuple(*[p_[1] for p_ in parts])
+            elif isinstance(it, ast.Call) and call_name(it) == "enumerate" and len(it.args) == 1:
+                p_ = element_of(it.args[0])
+                if p_[0] != "elem":
+                    raise _NotAligned()
+                val = sp.Tuple(sp.Symbol("<window index>", integer=True), p_[1])
+            else:
+                p_ = element_of(it)
+                if p_[0] != "elem":
+                    raise _NotAligned()
+                val = p_[1]
+            b = {}
+            bind(g.target, val, b)
+            v = tr(e.elt, b)
+            if g.ifs:
+                from ..expr import as_bool
+                cond = sp.And(*[as_bool(tr(c, b)) for c in g.ifs]) if len(g.ifs) > 1 else as_bool(tr(g.ifs[0], b))
+                return ("filtered", v, cond)
+            return ("elem", v)
+        if seq_names(e):
+            return ("elem", tr(e))
+        return ("scalar", tr(e))
+
+    def mask_of(sl):
+        from ..expr import as_bool
+        k, v = element_of(sl)
+        if k != "elem":
+            raise _NotAligned()
+        return as_bool(v)
+
+    def pw(v, c, old):
+        return sp.Piecewise((v, c), (old, True))
+    try:
+        for st in m.node.body:
+            if isinstance(st, ast.Expr) or isinstance(st, (ast.Pass,)):
+                continue
+            if isinstance(st, ast.For):
+                if any(isinstance(x, (ast.Assign, ast.AugAssign, ast.Return, ast.Break)) for x in ast.walk(st)):
+                    raise AnalysisError(f"{fq}: a loop of the whole-array form assigns or leaves (`{norm_key(st, 60)}`)")
+                continue                # logging only
+            if isinstance(st, ast.If):
+                # the cache test (returns / stores the remembered arguments) and the final all-flat rule
+                stores = [x for x in ast.walk(st) if isinstance(x, ast.Assign) and any(isinstance(t, ast.Subscript) and unparse(t.value) in elem for t in x.targets)]
+                if not stores:
+                    continue            # examined by the update tables (C08.R3)
+                if st.orelse or len(st.body) != 1 or len(stores) != 1:
+                    raise AnalysisError(f"{fq}: conditional whole-array store `{norm_key(st, 60)}` not interpreted")
+                tst = st.test
+                # `not M.any()` / `not np.any(M)` / `(~M).all()` / `M.sum() == 0` over the found-mask
+                cond = tr(tst)
+                inner = None
+                neg = False
+                c0 = cond
+                if isinstance(c0, sp.Not):
+                    neg, c0 = True, c0.args[0]
+                if isinstance(c0, sp.Eq) and c0.rhs == sp.true and fnm(c0.lhs) == "truth":
+                    c0 = c0.lhs.args[0]
+                if fnm(c0) in ("any", "attr_any", "all", "attr_all") or (fnm(c0) == "call" and False):
+                    inner = (fnm(c0).replace("attr_", ""), c0.args[0] if c0.args else None)
+                if inner is None and isinstance(tst, ast.UnaryOp) and isinstance(tst.op, ast.Not) and isinstance(tst.operand, ast.Call) \
+                        and call_name(tst.operand) in ("any", "all"):
+                    c_ = tst.operand
+                    base = c_.func.value if isinstance(c_.func, ast.Attribute) and not c_.args else (c_.args[0] if c_.args else None)
+                    if base is not None:
+                        inner, neg = (call_name(c_), mask_of(base)), True
+                elif inner is None and isinstance(tst, ast.Call) and call_name(tst) in ("any", "all"):
+                    c_ = tst
+                    base = c_.func.value if isinstance(c_.func, ast.Attribute) and not c_.args else (c_.args[0] if c_.args else None)
+                    if base is not None:
+                        inner, neg = (call_name(c_), mask_of(base)), False
+                if inner is None or inner[1] is None:
+                    raise AnalysisError(f"{fq}: the test `{unparse(tst)}` of a whole-array store is not a statement about all windows")
+                kind, mexpr = inner
+                scalars_before = ("any", True) if (kind == "any" and neg) else ("all", False) if (kind == "all" and not neg) else None
+                if scalars_before is None:
+                    raise AnalysisError(f"{fq}: the test `{unparse(tst)}` is not `no window ...` / `every window ...`")
+                # not any(M): every window has not M;  all(M'): every window has M'
+                every = sp.Not(mexpr) if kind == "any" else mexpr
+                x = stores[0]
+                t = x.targets[0]
+                if unparse(t.slice) != ":" and not (isinstance(t.slice, ast.Slice) and t.slice.lower is None and t.slice.upper is None):
+                    raise AnalysisError(f"{fq}: conditional store `{norm_key(x, 60)}` not interpreted")
+                k, v = element_of(x.value)[:2]
+                name = unparse(t.value)
+
+                def which(c):
+                    if isinstance(c, sp.Not):
+                        return {"absent": "found", "found": "absent"}.get(which(c.args[0]))
+                    if isinstance(c, sp.Eq) and c.rhs == sp.true and fnm(c.lhs) == "truth":
+                        return which(c.lhs.args[0])
+                    for a_ in sp.preorder_traversal(c):
+                        if fnm(a_) == "_find_peak_bounded":
+                            pk = gi(a_, sp.Integer(0))
+                            if isinstance(c, (sp.Eq, sp.Ne)) and same_rel(c, sp.Eq(pk, NONE, evaluate=False)):
+                                return "absent"
+                            if isinstance(c, (sp.Eq, sp.Ne)) and same_rel(c, sp.Ne(pk, NONE, evaluate=False)):
+                                return "found"
+                    return None
+                if which(every) != "absent":
+                    raise AnalysisError(f"{fq}: the test `{unparse(tst)}` is not `no window has a peak`")
+                elem[name] = sp.Piecewise((v, ALLFLAT), (elem[name], True))
+                continue
+            if isinstance(st, ast.Assign) and len(st.targets) == 1:
+                t = st.targets[0]
+                if isinstance(t, ast.Name):
+                    r = element_of(st.value)
+                    if r[0] == "elem":
+                        elem[t.id] = r[1]
+                    elif r[0] == "scalar":
+                        scalars[t.id] = r[1]
+                    else:
+                        raise AnalysisError(f"{fq}: a filtered sequence is bound to `{t.id}`")
+                    continue
+                if isinstance(t, ast.Attribute) or (isinstance(t, ast.Subscript) and unparse(t.value) not in elem):
+                    continue            # remembered arguments / metadata: examined by the update tables
+                if isinstance(t, ast.Subscript) and unparse(t.value) in elem:
+                    name = unparse(t.value)
+                    full = isinstance(t.slice, ast.Slice) and t.slice.lower is None and t.slice.upper is None and t.slice.step is None
+                    r = element_of(st.value)
+                    if full:
+                        if r[0] == "filtered":
+                            raise AnalysisError(f"{fq}: a filtered sequence is stored over all windows")
+                        elem[name] = r[1]
+                    else:
+                        mexpr = mask_of(t.slice)
+                        if r[0] == "scalar":
+                            elem[name] = pw(r[1], mexpr, elem[name])
+                        elif r[0] == "filtered":
+                            if not (same_rel(r[2], mexpr) or r[2] == mexpr):
+                                raise AnalysisError(f"{fq}: `{norm_key(st, 70)}`: the values are selected by `{r[2]}` but stored where `{mexpr}` holds")
+                            elem[name] = pw(r[1], mexpr, elem[name])
+                        else:
+                            raise AnalysisError(f"{fq}: `{norm_key(st, 70)}`: a value per window is stored into a selection of windows")
+                    continue
+            raise AnalysisError(f"{fq}: statement `{norm_key(st, 70)}` of the whole-array form is not interpreted")
+    except _NotAligned:
+        raise AnalysisError(f"{fq}: a sequence of the whole-array form does not run over the windows")
+    # ---- the search
+    call = None
+    for v in elem.values():
+        for a in sp.preorder_traversal(v):
+            if fnm(a) == "_find_peak_bounded":
+                call = a
+    if call is None:
+        ck.violation("C08.R2", fq, "per-window search", "no call of _find_peak_bounded decides the per-window peak", loc=m.loc())
+        return
+    ck.ok("C08.R2", fq, "every row of self.amplitude is examined (whole-array form)", nontrivial=False)
+    a = list(call.args)
+    srs = (R("self._search_range_in_hz"), R("search_range_in_hz"))
+    kws = (R("self._find_peaks_kwargs"), R("find_peaks_kwargs"))
+    if len(a) == 4 and a[0] == R("self.frequency") and a[1] == ROW and a[2] in srs and a[3] in kws:
+        ck.ok("C08.R2", fq, "per-window search over (self.frequency, this row) with the range in force", detail=str(call))
+    else:
+        ck.violation("C08.R2", fq, "per-window search", f"the per-window search is {call}: it does not examine (self.frequency, this row) over the range in force", loc=m.loc())
+    FP, AP = gi(call, sp.Integer(0)), gi(call, sp.Integer(1))
+    absent = sp.Eq(FP, NONE, evaluate=False)
+
+    def under(v, found: bool, allflat: bool):
+        def dec(c):
+            if isinstance(c, (sp.Eq, sp.Ne)):
+                if same_rel(c, absent):
+                    return sp.false if found else sp.true
+                if same_rel(c, negate(absent)):
+                    return sp.true if found else sp.false
+            if c == ALLFLAT:
+                # "every window is without a peak": true exactly in the all-flat case (and then this window is without one, too)
+                return sp.true if allflat else sp.false
+            return None
+
+        def dec_all(c):
+            if isinstance(c, sp.Not):
+                r = dec_all(c.args[0])
+                return {"absent": "found", "found": "absent"}.get(r)
+            if isinstance(c, (sp.Eq, sp.Ne)):
+                if same_rel(c, absent):
+                    return "absent"
+                if same_rel(c, negate(absent)):
+                    return "found"
+            return None
+
+        def go(x):
+            x = sp.sympify(x)
+            if isinstance(x, sp.Piecewise):
+                for val, c in x.args:
+                    cv = cond(c)
+                    if cv is True:
+                        return go(val)
+                    if cv is None:
+                        raise AnalysisError(f"{fq}: the condition `{c}` of a stored value is not about the presence of this window's peak")
+                raise AnalysisError(f"{fq}: no branch of `{x}` applies")
+            if isinstance(x, (sp.Eq, sp.Ne, sp.And, sp.Or, sp.Not)) or x == ALLFLAT or x in (sp.true, sp.false):
+                cv = cond(x)
+                if cv is None:
+                    raise AnalysisError(f"{fq}: the stored truth value `{x}` is not about the presence of this window's peak")
+                return sp.true if cv else sp.false
+            return x
+
+        def cond(c):
+            if c in (sp.true, True):
+                return True
+            if c in (sp.false, False):
+                return False
+            if isinstance(c, sp.Not):
+                r = cond(c.args[0])
+                return None if r is None else not r
+            if isinstance(c, sp.And):
+                rs = [cond(y) for y in c.args]
+                return False if any(r is False for r in rs) else None if any(r is None for r in rs) else True
+            if isinstance(c, sp.Or):
+                rs = [cond(y) for y in c.args]
+                return True if any(r is True for r in rs) else None if any(r is None for r in rs) else False
+            if isinstance(c, sp.Eq) and c.rhs == sp.true and fnm(c.lhs) == "truth":
+                return cond(c.lhs.args[0])
+            d = dec(c)
+            return None if d is None else bool(d)
+        return go(v)
+    problems = []
+    for found, allflat in ((True, False), (False, False), (False, True)):
+        want = {"_main_peak_frq": FP if found else sp.nan, "_main_peak_amp": AP if found else sp.nan,
+                "valid_window_boolean_mask": sp.true if (found or allflat) else sp.false, "valid_peak_boolean_mask": sp.true if found else sp.false}
+        for k, w in want.items():
+            g = under(elem["self." + k], found, allflat)
+            if any(str(s_).startswith("<old") for s_ in getattr(g, "free_symbols", ())):
+                problems.append(f"{'found' if found else 'absent'} peak: {k} keeps its previous value")
+            elif not (g == w or (g is sp.nan and w is sp.nan)):
+                problems.append(f"{'found' if found else 'absent'} peak{' (no curve has one)' if allflat else ''}: {k} <- {g} (expected {w})")
+    if not problems:
+        ck.ok("C08.R2", fq, "each window is assigned frequency, amplitude and both masks", detail="whole-array form, element by element")
+        ck.ok("C08.R2", fq, "absent -> NaN/False; found -> (f_peak, a_peak)/True")
+    else:
+        ck.violation("C08.R2", fq, "values per outcome", "absent peaks are not recorded as NaN with both masks False, or found peaks not as (f_peak, a_peak) with both masks True: "
+                     + "; ".join(problems[:3]), loc=m.loc())
+
+
+def _r2_tail(ck: Checker, prog: Program):
     _update_tables(ck, prog)
     # the curve a cached peak describes cannot be changed from outside: constructors keep private copies
     from .common import engine, reachable_nonlocal
